@@ -182,7 +182,7 @@ class CallsMixin:
         if n == "len":
             v = self.deref(pos[0], s1, "len") if pos[0].ty[0] == "opt" else pos[0]
             if v.ty[0] == "list":
-                nn = s1.length(v.term)
+                nn = s1.length(v.term, v.ty[1])
                 s1.assume(nn >= 0)
                 if strip_opt(v.ty[1])[0] == "ref":
                     # view link for duplicate-free reference lists: empty <=> no member
@@ -241,7 +241,7 @@ class CallsMixin:
     def sum_list(self, st, lst):
         """sum(xs): uninterpreted fold with the defining facts a proof can unfold; booleans count"""
         ety = strip_opt(lst.ty[1])
-        n = st.length(lst.term)
+        n = st.length(lst.term, lst.ty[1])
         if ety[0] in ("int", "bool"):
             f = z3.Function("sum_int", REF, z3.IntSort(), z3.IntSort())       # sum_int(list, k) = sum of first k elements (in this heap state)
             res = z3.Const(fresh_name("sum"), z3.IntSort())
@@ -272,9 +272,9 @@ class CallsMixin:
             raise Unsupported("sum(xs, []) over non-lists")
         ety = lists.ty[1][1]
         res = st.new_list(ety, "concat")
-        n = st.length(lists.term)
+        n = st.length(lists.term, lists.ty[1])
         nr = z3.Const(fresh_name("n_concat"), z3.IntSort())
-        st.assume(nr >= 0); st.set_len(res.term, nr)
+        st.assume(nr >= 0); st.set_len(res.term, nr, ety)
         if strip_opt(ety)[0] == "ref":
             x = z3.Const(fresh_name("x_cc"), REF); i = z3.Int(fresh_name("i_cc"))
             outer = st.elems(lists.term, lists.ty[1])
@@ -292,7 +292,7 @@ class CallsMixin:
 
     def list_extreme(self, st, lst, which):
         ety = strip_opt(lst.ty[1])
-        n = st.length(lst.term)
+        n = st.length(lst.term, lst.ty[1])
         st.oblige(f"{which}-of-nonempty", n > 0, "implicit")
         res = z3.Const(fresh_name(which), sort_of(ety))
         el = st.elems(lst.term, lst.ty[1]); i = z3.Int(fresh_name("i_ext"))
@@ -342,7 +342,7 @@ class CallsMixin:
             def at(s, i):
                 s2 = s.peek()
                 return s2.list_get(lst, V(("int",), i))
-            return st.length(lst.term), at, lst.ty[1]
+            return st.length(lst.term, lst.ty[1]), at, lst.ty[1]
         if it.ty[0] == "range":
             lo, hi = it.py
             return z3.If(hi - lo > 0, hi - lo, 0), (lambda s, i: V(("int",), lo + i)), ("int",)
@@ -385,7 +385,7 @@ class CallsMixin:
             if ann and ann[0] == "list" and (v.ty[0] == "none" or ann[1][0] == "opt" or v.ty[0] == "dyn"):
                 rty = ann[1]
             r = s1.new_list(rty, "comp")
-            s1.set_len(r.term, n)
+            s1.set_len(r.term, n, rty)
             new = z3.FreshConst(z3.ArraySort(z3.IntSort(), sort_of(rty)), "comp_el")
             if extra:
                 s1.assume(z3.ForAll([i], z3.Implies(z3.And(0 <= i, i < n), z3.And(*extra))))
@@ -429,7 +429,7 @@ class CallsMixin:
             want_key = e.elt.id == tgt.elts[0].id
             rty = kty if want_key else vty
             r = s1.new_list(rty, "filtercomp")
-            n = z3.Const(fresh_name("n_cf"), z3.IntSort()); s1.assume(n >= 0); s1.set_len(r.term, n)
+            n = z3.Const(fresh_name("n_cf"), z3.IntSort()); s1.assume(n >= 0); s1.set_len(r.term, n, rty)
             keyof = z3.Function(fresh_name("keyof"), z3.IntSort(), sort_of(kty)); idxof = z3.Function(fresh_name("idxof"), sort_of(kty), z3.IntSort())
             new = z3.FreshConst(z3.ArraySort(z3.IntSort(), sort_of(rty)), "cf_el")
             sel = lambda kk: z3.And(z3.Select(s1.dict_dom(dct), kk), z3.substitute(cond_k, (k, kk)))
@@ -632,10 +632,10 @@ class CallsMixin:
             xs = pos[0]; k = self.as_int(pos[1], st).term
             if xs.ty[0] != "list":
                 raise Unsupported("sample of non-list")
-            st.oblige("sample:k==len", k == st.length(xs.term), "pre@lib")
+            st.oblige("sample:k==len", k == st.length(xs.term, xs.ty[1]), "pre@lib")
             ety = xs.ty[1]
             r = st.new_list(ety, "perm")
-            n = st.length(xs.term); st.set_len(r.term, n)
+            n = st.length(xs.term, ety); st.set_len(r.term, n, ety)
             # permutation: bijection sigma on [0,n)
             sig = z3.Function(fresh_name("sigma"), z3.IntSort(), z3.IntSort()); inv = z3.Function(fresh_name("sigma_inv"), z3.IntSort(), z3.IntSort())
             i = z3.Int(fresh_name("i_perm"))
@@ -651,10 +651,10 @@ class CallsMixin:
             xs = pos[0]
             if xs.ty[0] != "list":
                 raise Unsupported("choices of non-list")
-            ety = xs.ty[1]; n = st.length(xs.term)
+            ety = xs.ty[1]; n = st.length(xs.term, ety)
             st.oblige("choices:non-empty", n > 0, "pre@lib")
             j = z3.Const(fresh_name("choice_idx"), z3.IntSort()); st.assume(z3.And(0 <= j, j < n))
-            r = st.new_list(ety, "choices"); st.set_len(r.term, z3.IntVal(1))
+            r = st.new_list(ety, "choices"); st.set_len(r.term, z3.IntVal(1), ety)
             s2 = st.peek(); el = s2.list_get(xs, V(("int",), j))
             st.list_set(r, mkint(0), el, check=False)
             r.py = ("choice", xs, j)
@@ -665,8 +665,8 @@ class CallsMixin:
         ety = recv.ty[1]; r = recv.term
         isref = strip_opt(ety)[0] in ("ref",)
         if name == "append":
-            n = st.length(r)
-            st.set_len(r, n + 1)
+            n = st.length(r, ety)
+            st.set_len(r, n + 1, ety)
             v = pos[0]
             if ety[0] == "dyn" and v.ty[0] != "dyn":
                 # untyped fresh list: adopt the element type of the first append (lists created by `[]` without annotation)
@@ -690,7 +690,7 @@ class CallsMixin:
             other = pos[0]
             res = self.list_concat(st, recv, other, "ext")
             # in-place: copy views of the concatenation onto the receiver
-            st.set_len(r, st.length(res.term))
+            st.set_len(r, st.length(res.term, ety), ety)
             for part in (("val", "none") if ety[0] == "opt" else ("val",)):
                 st.set_elems(r, ety, st.elems(res.term, ety, part), part)
             if isref:
@@ -701,7 +701,7 @@ class CallsMixin:
             if not isref:
                 if x.ty[0] == "none" and ety[0] == "opt":
                     # keys.remove(None): length - 1, contents otherwise abstracted
-                    st.set_len(r, st.length(r) - 1)
+                    st.set_len(r, st.length(r, ety) - 1, ety)
                     k, a = st.el_arr(ety); st.heap[k] = z3.Store(a, r, z3.FreshConst(z3.ArraySort(z3.IntSort(), sort_of(ety)), "rm_el"))
                     return [(st, NONE)]
                 raise Unsupported("remove on a non-reference list")
@@ -723,7 +723,7 @@ class CallsMixin:
                 return [(st, V(("int",), j))]
             j = z3.Const(fresh_name("idx"), z3.IntSort())
             st.oblige("list.index:element-present", self.contains(st, recv, x, d), "pre@lib")
-            st.assume(z3.And(0 <= j, j < st.length(r), z3.Select(st.elems(r, ety), j) == x.term))
+            st.assume(z3.And(0 <= j, j < st.length(r, ety), z3.Select(st.elems(r, ety), j) == x.term))
             return [(st, V(("int",), j))]
         if name == "copy":
             return [(st, self.list_concat(st, recv, st.new_list(ety), "copy"))]
